@@ -42,16 +42,6 @@ theorem no_read_if_satisfied (r : Reader) (h : r.Ok) (hh : r.src.Honest) :
     obtain ⟨r', bs, e, _, _, h1, _⟩ := requestByteAt_spec r h hh k
     simp only [Op.run, e]; exact h1 hk
 
-theorem requestLoop_complete (f : Nat) (r : Reader) (len : Nat) (hc : r.complete = true) :
-    r.requestLoop f len = (some (), r) := by
-  cases f with
-  | zero => rfl
-  | succ f =>
-    unfold requestLoop
-    split
-    · simp [requestMore, hc]
-    · rfl
-
 /-- **The source is never called again after it reported end of input or an error.**  Once the
 reader is complete no operation changes the source (no call is made), and — as an invariant of
 every history — the ghost counter of calls made after the end stays 0. -/
